@@ -159,7 +159,9 @@ static void apiCall(Slot& sl, int slotId, const std::string& label, bool logOn, 
 	sl.buf.clear(); sl.ret = -1;
 	const size_t breaksBefore = vf::breakLog().hits.size();
 	std::string scj; scriptJson(scj, p.sc);
+	const long allocsBefore = vf::allocCount();
 	f();
+	const long allocs = vf::allocCount() - allocsBefore;
 	std::string post;
 	if (sl.fsm) snapshot(post, *sl.fsm); else post = "0";
 	if (logOn) {
@@ -169,6 +171,8 @@ static void apiCall(Slot& sl, int slotId, const std::string& label, bool logOn, 
 		o += ",\"ev\":["; o += p.ev; o += "]";
 		o += ",\"post\":"; o += post;
 		o += ",\"draws\":"; jint(o, p.draws);
+		o += ",\"quiet\":"; o += p.quiet ? "true" : "false"; o += ",\"allocs\":"; jint(o, p.quiet ? allocs : 0);
+		o += ",\"size\":"; jint(o, (long) sizeof(FSM::Instance));
 		o += ",\"buf\":["; o += sl.buf; o += "],\"ret\":"; jint(o, sl.ret);
 		o += ",\"badThis\":"; jarr(o, (int) p.badThis.size(), [&](int i) { jint(o, p.badThis[i]); });
 		o += ",\"badOrigin\":"; jarr(o, (int) p.badOrigin.size(), [&](int i) { jint(o, p.badOrigin[i]); });
@@ -258,6 +262,7 @@ static int run() {
 		if (c == "slot")       { cur = I(1); }
 		else if (c == "log")   { logOn = I(1) != 0; }
 		else if (c == "fill")  { fill = (unsigned char) I(1); }
+		else if (c == "quiet") { for (Slot& q : slots) q.probe.quiet = I(1) != 0; }
 		else if (c == "hook")  { Hook h; h.s = I(1); h.me = t[2]; h.n = I(3); for (size_t i = 4; i < t.size(); ++i) h.ops.push_back(parseOp(t[i])); sl.probe.sc.hooks.push_back(h); }
 		else if (c == "sel")   { sl.probe.sc.sel[I(1) - 1] = I(2); }
 		else if (c == "rank")  { sl.probe.sc.rank[I(1) - 1] = I(2); }
@@ -324,6 +329,13 @@ static int run() {
 }
 
 }
+
+void* operator new(std::size_t n)   { ++vf::allocCount(); if (void* p = malloc(n ? n : 1)) return p; throw std::bad_alloc(); }
+void* operator new[](std::size_t n) { ++vf::allocCount(); if (void* p = malloc(n ? n : 1)) return p; throw std::bad_alloc(); }
+void operator delete(void* p) noexcept   { free(p); }
+void operator delete[](void* p) noexcept { free(p); }
+void operator delete(void* p, std::size_t) noexcept   { free(p); }
+void operator delete[](void* p, std::size_t) noexcept { free(p); }
 
 int main() {
 	std::set_terminate([] { fflush(stdout); _exit(4); });
